@@ -137,13 +137,14 @@ func (t *tailgen) wrap(c tailctx, x string) string {
 }
 
 type tailshape struct {
-	name   string
-	defs   string
-	twin   bool // also define `ff`, the same function bound by (def ff (fn …)): no call in its body is a self tail call
-	call   func(n int64) string
-	closed func(n int64) string // "" = none
-	space  bool
-	depths []int64
+	name     string
+	defs     string
+	twin     bool // also define `ff`, the same function bound by (def ff (fn …)): no call in its body is a self tail call
+	call     func(n int64) string
+	twinCall func(n int64) string // explicit twin call text (when the twin is not a textual rewrite of defs)
+	closed   func(n int64) string // "" = none
+	space    bool
+	depths   []int64
 }
 
 func tailTilde(s string) string { return strings.ReplaceAll(s, " ", "~") }
@@ -189,6 +190,12 @@ func (t *tailgen) emit(s tailshape) {
 	m, r := 1, 1
 	wall := 20
 	for _, n := range s.depths {
+		if s.twinCall != nil {
+			idx := len(texts)
+			texts = append(texts, tailTilde(s.twinCall(n)))
+			flags = append(flags, fmt.Sprintf("+t%d=%d", idx+1, idx))
+			g.Count("twin pair with explicit twin")
+		}
 		if twinDefs != "" && n <= 1000 {
 			// the twin call right before the optimised one (same interpreter state for both)
 			idx := len(texts)
@@ -396,6 +403,63 @@ func (t *tailgen) traced(nInner int) tailshape {
 	return tailshape{name: "traced", twin: true, defs: defs, call: call, space: all, depths: []int64{0, 1, 2, 5, 30}}
 }
 
+// The name is rebound at run time by code OUTSIDE the body while the function recurses
+// (fix C09-02): by another function or a closure called from the body, or by a side effect of
+// a strict operand of the tail call itself (the callee is resolved before the operands, so that
+// iteration still calls the old function); in every iteration or only when n reaches k; to a
+// non-function, to a function of the same or of another arity, to a fresh closure. Every call
+// text defines the function anew (it has been rebound by the previous one) and is paired with
+// its unoptimised twin ff/gg.
+func (t *tailgen) rebound(nCtx int) tailshape {
+	g := t.g
+	t.probe, t.nloc, t.acc, t.eff = 1, 0, "a", false
+	who := t.rnd(3)  // 0 function, 1 closure, 2 operand side effect
+	when := t.rnd(3) // 0 every iteration, 1/2 when n == k
+	newv := t.rnd(5)
+	k := int64(1 + t.rnd(3))
+	news := []string{"7", "h", "h1", "(fn [n a] (+ a 5))", "nil"}[newv]
+	// one context stack, shared by the function and its twin
+	wrapped, _, _ := t.contexts("@STEP@", nCtx, false)
+	build := func(fn, gn string, defn bool, n int64) string {
+		set := fmt.Sprintf("(set %s %s)", fn, news)
+		trigger := fmt.Sprintf("(%s)", gn)
+		if who == 2 {
+			trigger = set
+		}
+		if when != 0 {
+			trigger = fmt.Sprintf("(cond (== n %d) %s nil)", k, trigger)
+		}
+		var step string
+		if who == 2 {
+			step = fmt.Sprintf("(%s (begin %s (- n 1)) (+ a n))", fn, trigger)
+		} else {
+			step = fmt.Sprintf("(begin %s (%s (- n 1) (+ a n)))", trigger, fn)
+		}
+		inner := strings.ReplaceAll(wrapped, "@STEP@", step)
+		body := fmt.Sprintf("[n a] (probe 1) (cond (== n 0) a %s)", inner)
+		var def, helper string
+		if defn {
+			def = fmt.Sprintf("(defn %s %s)", fn, body)
+		} else {
+			def = fmt.Sprintf("(def %s (fn %s))", fn, body)
+		}
+		switch who {
+		case 0:
+			helper = fmt.Sprintf("(defn %s [] %s)", gn, set)
+		case 1:
+			helper = fmt.Sprintf("(def %s (let [z 1] (fn [] %s)))", gn, set)
+		}
+		return strings.TrimSpace(fmt.Sprintf("%s %s (%s %d 0)", def, helper, fn, n))
+	}
+	g.Count(fmt.Sprintf("rebound by %s", []string{"a function called from the body", "a closure called from the body", "a strict operand of the tail call"}[who]))
+	g.Count(fmt.Sprintf("rebound %s", []string{"in every iteration", "when n reaches k", "when n reaches k"}[when]))
+	g.Count("rebound to " + []string{"a non-function", "a function of the same arity", "a function of another arity", "a fresh closure", "nil"}[newv])
+	return tailshape{name: "rebound during the recursion", defs: "(defn h [n a] (+ (* n 1000) a)) (defn h1 [n] (+ n 50))",
+		call:     func(n int64) string { return build("f", "g", true, n) },
+		twinCall: func(n int64) string { return build("ff", "gg", false, n) },
+		depths:   []int64{0, 1, 2, 3, 5, 30}}
+}
+
 // Hand-written histories, run first on every check.
 var tailFixed = []string{
 	// README / unit-test shapes
@@ -426,6 +490,20 @@ var tailFixed = []string{
 	"+space (defn lz [n #x] (probe 1) (cond (== n 0) 0 (lz (- n 1) (trace n)))) (lz 0 (trace 9)) (lz 3 (trace 9)) (lz 200 (trace 9))",
 	"+space (defn lz [n #x] (probe 1) (cond (== n 0) (force #x) (lz (- n 1) (+ n 100)))) (lz 0 (trace 9)) (lz 3 (trace 9)) (lz 200 (trace 9))",
 	"+space (defn lz [n a #x] (probe 1) (cond (== n 0) a (lz (- n 1) (+ a (force #x)) (trace n)))) (lz 0 0 (trace 9)) (lz 3 0 (trace 9)) (lz 50 0 (trace 9))",
+	// the name is rebound while the function recurses (fix C09-02)
+	"(defn g [] (set f 7)) (defn f [n] (cond (== n 0) 0 (begin (g) (f (- n 1))))) (f 2)",
+	"(defn h [n] n) (defn g [] (set f h)) (defn f [n] (cond (== n 0) 100 (begin (g) (f (- n 1))))) (f 2)",
+	"(defn h [n] (+ n 1000)) (defn f [n] (cond (== n 0) 100 (f (begin (set f h) (- n 1))))) (def al f) (al 2) (f 5)",
+	// called through an alias after the name got a new definition
+	"(defn f [n a] (cond (== n 0) a (f (- n 1) (+ a n)))) (def al f) (defn f [n a] (+ 999 a)) (al 3 0) (al 0 4)",
+	"(defn f [n a] (cond (== n 0) a (f (- n 1) (+ a n)))) (def al f) (def f 5) (al 0 1) (al 3 0)",
+	// zero operands: a non-function value of the name is its own value
+	"(defn f [] (cond (== c 0) 1 (begin (set c 0) (g) (f)))) (defn g [] (set f 7)) (def c 1) (f)",
+	// recursion through the name captured with the closure: still the running function, constant space;
+	// a global of the same name does not matter
+	"+space (defn mkf [] (defn f [n a] (probe 1) (cond (== n 0) a (f (- n 1) (+ a n)))) f) (def f1 (mkf)) (def f2 (mkf)) (f1 0 0) (f1 5 0) (def f f2) (f1 300 0) (f 300 0)",
+	// another closure of the same template bound to the name: its own captured variable is used from then on
+	"(defn mk [d] (fn [n a] (cond (== n 0) (+ a d) (begin (set f other) (f (- n 1) (+ a n)))))) (def f (mk 1)) (def other (mk 100)) (f 3 0)",
 	// effects before the tail call, closures see per-iteration values of set locals
 	"+space (def g 0) (defn f [n] (probe 1) (set g (+ g n)) (cond (== n 0) g (f (- n 1)))) (f 0) (f 4) g (f 1000) g",
 }
@@ -510,10 +588,10 @@ func tailGen(g *Gen) {
 	}
 	t := &tailgen{g: g}
 	deep := depthsTailQuick
-	nAcc, nDeep, nNon, nCol, nVar, nTr := 70, 4, 50, 16, 16, 30
+	nAcc, nDeep, nNon, nCol, nVar, nTr, nReb := 70, 4, 50, 16, 16, 30, 60
 	if g.Thorough() {
 		deep = depthsTailThorough
-		nAcc, nDeep, nNon, nCol, nVar, nTr = 1000, 10, 500, 120, 120, 250
+		nAcc, nDeep, nNon, nCol, nVar, nTr, nReb = 1000, 10, 500, 120, 120, 250, 600
 	}
 	// every tail context alone and every ordered pair of tail contexts, at moderate depths
 	for _, c := range tailCtxs {
@@ -566,5 +644,8 @@ func tailGen(g *Gen) {
 	}
 	for i := 0; i < nTr; i++ {
 		t.emit(t.traced(t.rnd(4)))
+	}
+	for i := 0; i < nReb; i++ {
+		t.emit(t.rebound(t.rnd(3)))
 	}
 }
